@@ -27,7 +27,7 @@ Definition salt7 : N := Z.to_N go_bloom_salt7.
 Definition block : Type := (N * N * N * N * N * N * N * N)%type.
 Definition empty_block : block := (0, 0, 0, 0, 0, 0, 0, 0).
 
-Definition mul32 (a b : N) : N := (a * b) mod M32.
+Definition mul32 (a b : N) : N := w32 (a * b).
 
 (* 1 << ((x * salt) >> 27), uint32 arithmetic *)
 Definition bit (x salt : N) : N := N.shiftl 1 (N.shiftr (mul32 x salt) 27).
@@ -76,12 +76,12 @@ Definition block_index (f : filter) (x : N) : nat :=
 
 (* filter_default.go filterInsert: f[fasthash1x64(x, len(f))].Insert(uint32(x)) *)
 Definition filter_insert (f : filter) (x : N) : filter :=
-  update_nth (block_index f x) (fun b => block_insert b (x mod M32)) f.
+  update_nth (block_index f x) (fun b => block_insert b (w32 x)) f.
 
 (* filter_default.go filterCheck (an index out of range panics in Go: false here) *)
 Definition filter_check (f : filter) (x : N) : bool :=
   match nth_error f (block_index f x) with
-  | Some b => block_check b (x mod M32)
+  | Some b => block_check b (w32 x)
   | None => false
   end.
 
@@ -119,7 +119,7 @@ Definition check_split_block (data : list N) (x : N) : bool :=
   let n := N.of_nat (length data) in
   let offset := block_size * fasthash1x64 x (n / block_size) in
   let blk := block_of_bytes (firstn 32 (skipn (N.to_nat offset) data)) in
-  block_check blk (x mod M32).
+  block_check blk (w32 x).
 
 (* filter.go NumSplitBlocksOf(numValues int64, bitsPerValue uint) *)
 Definition num_split_blocks_of (num_values bits_per_value : N) : N :=
